@@ -43,6 +43,7 @@ PROPS = {
 }
 
 BIG = 100000           # Scan!BigClaim
+JAVA = ['-Xss256m', '-XX:ParallelGCThreads=4']     # recursive operators of Scan.tla; many small JVMs side by side
 SPECIAL = [511, 512, 513, 1023, 1024, 1025, 1535, 1536, 4095, 4096]
 DMG_CHOICES = [('garbage', 0), ('zero', 0), ('ksz0', 0), ('vszhuge', 0), ('hdr', 1), ('hdr', 2), ('hdr', 3), ('hdr', BIG)]
 
@@ -131,7 +132,7 @@ def run_gen(work, inputs, do_short, do_layout, seed, nshards, log, tag='gen'):
                     f.write(json.dumps({'k': 'none', 'id': 'none'}) + '\n')
             cfg = 'CONSTANTS\n  Shard = %d\n  NShards = %d\n  DoShort = %s\n  DoLayout = %d\n  PatSeed = %d\n' % (
                 s, nshards, 'TRUE' if do_short else 'FALSE', int(do_layout), seed % 251)
-            r = V.tlc_run('Gen_Codec', cfg, rd, workers=1, timeout=1500)
+            r = V.tlc_run('Gen_Codec', cfg, rd, workers=1, timeout=1500, java=JAVA)
             vf = os.path.join(rd, 'vectors.ndjson')
             if r['error'] or r['timeout'] or r['rc'] != 0 or not os.path.exists(vf):
                 raise V.Inconclusive('vector generation failed: %s\n%s' % (r['error'] or r['rc'], r['out'][-1500:]))
@@ -157,7 +158,7 @@ CHECK_DEADLOCK FALSE
 
 def run_mc(work, name, mb, emit, excuse, mut, log, workers=8, timeout=1500):
     r = V.tlc_run('MC_Scan', MC_CFG % dict(mb=mb, emit='TRUE' if emit else 'FALSE', excuse='TRUE' if excuse else 'FALSE', mut=mut),
-                  os.path.join(work, name), workers=workers, timeout=timeout)
+                  os.path.join(work, name), workers=workers, timeout=timeout, java=JAVA)
     if r['timeout'] or (r['error'] and not r['violated']):
         raise V.Inconclusive('TLC failed on MC_Scan (%s): %s\n%s' % (name, r['error'] or 'timeout', r['out'][-1500:]))
     files = []
@@ -188,7 +189,7 @@ def validate(events, work, log, tag='tv'):
         return [], [], {'f9': 0, 'abort': 0}
     t0 = time.time()
     weight = sum(1 + len(e.get('bytes', ())) // 400 for e in events)
-    k = max(1, min(8, math.ceil(weight / 500.0)))
+    k = max(1, min(6, math.ceil(weight / 700.0)))
     parts = [events[i::k] for i in range(k)]
     mut = scan_mut()
 
@@ -199,7 +200,7 @@ def validate(events, work, log, tag='tv'):
             with open(os.path.join(rd, 'trace.ndjson'), 'w') as f:
                 for e in part:
                     f.write(json.dumps(e) + '\n')
-            r = V.tlc_run('Trace_Codec', TRACE_CFG % mut, rd, workers=1, timeout=3000)
+            r = V.tlc_run('Trace_Codec', TRACE_CFG % mut, rd, workers=1, timeout=3000, java=JAVA)
             m = re.findall(r'<<"VERIF-RESULT", "(.*)">>', r['out'])
             if r['rc'] != 0 or r['error'] or r['timeout'] or not m:
                 raise V.Inconclusive('trace validation failed: %s\n%s' % (r['error'] or ('rc=%s' % r['rc']), r['out'][-2000:]))
@@ -220,6 +221,49 @@ def validate(events, work, log, tag='tv'):
     stat['trace_states'] = states
     log('TLC validated %d observations in %d shard(s), %.1fs: %d failures, %d drift' % (len(events), k, time.time() - t0, len(bad), len(drift)))
     return bad, drift, stat
+
+
+def selftest_binding(pid, events, bad, work, log):
+    """DESIGN.md 4.7: the binding is real - observations with one corrupted logged field must be rejected by TLC."""
+    import copy
+    failed = {sid for sid, n, chk in bad}
+    want = {}
+    out = []
+
+    def take(kind, pred, mutate, check):
+        for e in events:
+            if e['a'] == kind and e['sid'] not in failed and pred(e):
+                c = copy.deepcopy(e)
+                mutate(c)
+                c['sid'] = 'selftest-%s-%s' % (check, e['sid'])
+                out.append(c)
+                want[c['sid']] = check
+                return
+    if pid == 'C16':
+        ok = lambda e: e['what'] != 'crc' and len(e['bytes']) > 2
+        take('Hash', ok, lambda c: c['fnv'].__setitem__(1, c['fnv'][1] ^ 1), 'C16_Fnv')
+        take('Hash', ok, lambda c: c['mur'].__setitem__(0, c['mur'][0] ^ 0x8000), 'C16_Murmur')
+        take('Hash', ok, lambda c: c.__setitem__('vh', c['vh'] ^ 1), 'C16_VHash')
+        take('Hash', ok, lambda c: c['crc'].__setitem__(1, (c['crc'][1] + 1) % 65536), 'C16_CRC')
+        take('Hash', ok, lambda c: c['bytes'].__setitem__(0, c['bytes'][0] ^ 0x80), 'C16_KeyHash')     # another input, same results
+        take('Layout', lambda e: len(e['file']) >= 256, lambda c: c['file'].__setitem__(0, c['file'][0] ^ 1), 'C16_RecordCRC')
+    else:
+        take('Layout', lambda e: len(e['file']) >= 256, lambda c: c['file'].__setitem__(30, c['file'][30] ^ 1), 'C09_Layout')
+        take('Layout', lambda e: e['at'] and e['at'][0]['ok'], lambda c: c['at'][0]['ts'].__setitem__(1, c['at'][0]['ts'][1] ^ 1), 'C09_RoundTripAt')
+        take('ScanFile', lambda e: len(e['yields']) >= 1, lambda c: c['yields'][-1].__setitem__(0, c['yields'][-1][0] + 1), 'C09_Scan')
+        take('ScanFile', lambda e: 0 in e['readat'][:-1], lambda c: c['readat'].__setitem__(c['readat'].index(0), -1), 'C09_ReadAt')
+        take('Detect', lambda e: e['pos'] < 24 and 0 in e['readat'][:-1], lambda c: c['readat'].__setitem__(c['readat'].index(0), -1), 'C09_Detect')
+    if not out:
+        return 0
+    b2, _, _ = validate(out, work, lambda m: None, tag='st')
+    got = {}
+    for sid, n, chk in b2:
+        got.setdefault(sid, set()).add(chk)
+    miss = [sid for sid, chk in want.items() if chk not in got.get(sid, ())]
+    if miss:
+        raise V.Inconclusive('self-test: corrupted observations were accepted by the validator: %s' % miss)
+    log('self-test: %d corrupted observations rejected by TLC (%s)' % (len(out), ', '.join(sorted(set(want.values())))))
+    return len(out)
 
 
 # ----------------------------------------------------------------------------- scenarios for the real code
@@ -406,14 +450,28 @@ def run(pid, tier, seed, work, log, replay=None):
     # ---- (d) TLC judges
     bad, drift, stat = validate(events, work, log)
     byid = {s['id']: s for s in scen}
-    f9 = []
+    if not replay:
+        cov['selftest_corrupted_observations_rejected'] = selftest_binding(pid, events, bad, work, log)
+    f9, viol = [], {}
     for sid, n, chk in sorted(set(bad)):
         if not chk.startswith(pid + '_'):
             continue
         if chk.endswith('_F9'):
             f9.append((sid, n, chk))
         else:
+            viol.setdefault(chk, []).append((sid, n))
+    # a broken function fails thousands of vectors: report the smallest scenarios of every failing check (at most 6 each,
+    # distinct scenarios across checks); the totals go to the log and the evidence
+    size = lambda sid: len(json.dumps(byid[sid]))
+    used = set()
+    for chk in sorted(viol):
+        hits = sorted(viol[chk], key=lambda x: (size(x[0]), x[0], x[1]))
+        log('%d observation(s) fail %s' % (len(hits), chk))
+        fresh = [h for h in hits if h[0] not in used][:6] or hits[:1]
+        for sid, n in fresh:
+            used.add(sid)
             res['violations'].append({'sid': sid, 'n': n, 'check': chk, 'kf': ''})
+    cov['failures_by_check'] = {chk: len(v) for chk, v in viol.items()}
     nf9 = len(f9)
     # every hit is counted in the evidence; a few reproducers (smallest scenarios, distinct kinds) are enough for the report
     seen = set()
